@@ -578,7 +578,10 @@ class MixedEdgeGraph:
         for edge_type, adj in self.adj.items():
             for u, nbrs in adj.items():
                 for v, datadict in nbrs.items():
-                    G.add_edge(u, v, edge_type, **datadict.copy())
+                    G.add_edge(u, v, edge_type)
+                    # edge data is written as a dict, not passed as keyword arguments: attribute keys may
+                    # be any hashable, including the parameter names of add_edge ("edge_type", ...)
+                    G.get_graphs(edge_type).edges[u, v].update(datadict)
         return G
 
     def is_multigraph(self):
@@ -915,7 +918,10 @@ class MixedEdgeGraph:
 
         # initialize list of empty internal graphs
         graph_classes = [self._internal_graph_nx_type(edge_type)() for edge_type in self.edge_types]
-        graph = self.__class__(**self.graph).copy()
+        # graph attributes are copied as a dict, not passed as keyword arguments: their keys may be any
+        # hashable, including the parameter names of the constructor ("graphs", "edge_types", ...)
+        graph = self.__class__()
+        graph.graph.update(self.graph)
         # a subclass constructor may create default edge types: keep only those of this graph
         graph.clear_edge_types()
         for edge_type, _graph in zip(self.edge_types, graph_classes):
